@@ -136,9 +136,13 @@ def k0_marker_keys(ctx):
     if nk == 2:
         ctx.assume(pairs[0][0] != pairs[1][0])
     if "C05-marker-keys" in ctx.params.get("known_active", []):
-        for k, _ in pairs:
+        # the recorded class: a user key that is a payload marker.  A "_type" key whose value names no registered
+        # class is handed back unchanged by the decoder and is judged like any other key.
+        # (with an unhashable value - list / dict - the "_type" key raises TypeError in the registry lookup: part
+        # of the recorded class)
+        for k, v in pairs:
             for mk in MARKERS:
-                if len(mk) == len(k):
+                if (mk != "_type" or isinstance(v, (list, dict))) and len(mk) == len(k):
                     ctx.assume(k != mk)
     T = {"Any": typing.Any, "Dict[str, Any]": typing.Dict[str, typing.Any],
          "List[Dict[str, str]]": typing.List[typing.Dict[str, str]],
@@ -535,6 +539,59 @@ def k3_cli_shape(ctx):
     ctx.require(got == exp, "cli-json-payload-shape", n=n, unit=unit)
     ctx.require(isinstance(got, dict) == (n == 1 and not unit), "cli-object-vs-array", n=n, unit=unit)
     text = _dumps(got)
+    # the CLI's own output step: what main() writes for --json / --json-unit is that JSON, also when the text holds
+    # characters the stdout encoding cannot represent (the JSON text form is pure ASCII)
+    if ctx.flag("through_main_with_ascii_stdout"):
+        import sys
+        import sharepoint2text
+        if results and isinstance(results[0], PlainTextContent):
+            results[0] = PlainTextContent(content="caf\u00e9 \u20ac \udc80")
+
+        class AsciiOut(io.StringIO):
+            encoding = "ascii"
+
+            def write(self, t):
+                t.encode("ascii")
+                return io.StringIO.write(self, t)
+
+        class FakePath:
+            def __init__(self, p_):
+                self.p = str(p_)
+
+            def exists(self):
+                return True
+
+            def stat(self):
+                class St:
+                    st_size = 10
+                return St()
+
+            def __str__(self):
+                return self.p
+
+            def __fspath__(self):
+                return self.p
+        out, err = AsciiOut(), io.StringIO()
+        argv = ["some/file.txt", "--json-unit" if unit else "--json"] + (["--binary"] if binary else [])
+        with ctx.stub(sharepoint2text, read_file=lambda path, **k: iter(results)), ctx.stub(cli, Path=FakePath), \
+                ctx.stub(sys, stdout=out, stderr=err):
+            try:
+                rc = cli.main(argv)
+            except SystemExit as e:
+                rc = e.code
+            except Exception as e:
+                rc = ("raised", type(e).__name__)
+        if unit:
+            per2 = [[s.serialize_extraction(u, include_binary=binary) for u in r.iterate_units()] for r in results]
+        else:
+            per2 = [s.serialize_extraction(r, include_binary=binary) for r in results]
+        exp2 = per2[0] if n == 1 else per2
+        try:
+            printed = json.loads(out.getvalue())
+        except Exception:
+            printed = None
+        ctx.require(rc in (0, None) and printed == exp2, "cli-output-is-not-the-json-of-the-results", rc=repr(rc),
+                    n=n, unit=unit, stderr=err.getvalue()[:100])
     # binary payloads are in the output exactly when asked for (independent of serialize_extraction's own flag)
     if isinstance(text, str):
         for b64 in payloads:
